@@ -1,4 +1,6 @@
 import TnVerif.Model.Round
+import TnVerif.Lemmas.RoundTTBridge
+import Mathlib.Tactic.IntervalCases
 import TnVerif.Generated
 import Mathlib.Algebra.Order.Field.Basic
 import Mathlib.Tactic.FieldSimp
@@ -10,8 +12,8 @@ import Mathlib.Tactic.Linarith
 Proved here (any ordered field): the rank chosen by `truncated_svd` is the **least** rank whose
 discarded tail of squared singular values is within the budget, is never below 1, never above
 `rmax`, never above the number of singular values; the budget split of `round()` adds up to `eps`.
-The SVD/eigh kernels and the isometry argument that turns the per-step matrix error into the tensor
-error are not formalised here (see the open statements at the end).
+For TT cores and `algorithm='svd'` the full error bound of the truncation sweep is proved (`roundTT_error_eq`,
+`roundTT_within_eps`), given the SVD kernel's contract for every recorded answer.
 -/
 namespace TN.C04
 open TN
@@ -93,9 +95,75 @@ theorem budget_nonneg (eps e1 : K) (h : 0 ≤ e1) (he : e1 ≤ eps) : 0 ≤ (1 +
 theorem constants_from_source :
     Generated.floats_round_truncated_svd = [(1, 100000000), (1, 10000000000000), (1, 10000000000000), (1, 1), (1, 1)] := rfl
 
--- NOT YET PROVED (full statement):
--- theorem roundTT_error (t : Tensor ℝ) (eps) (SVD answers with SVDok) :
---   ‖dense t − dense (roundTT eps t)‖² ≤ eps² · ‖dense t‖²
--- (per-step isometry L8 `iface_ortho` is proved in Lemmas/Chain; orthogonality of successive errors and the assembly over the sweep are open)
+/-! ## the error bound of `round_tt` (TT cores, `algorithm='svd'`)
+
+State entering the sweep (after `orthogonalize(N-1)`): reversed chain `cur :: rest`, `rest` left-orthonormal
+(`chainLO`), `cur` = last core.  Kernel answers `as` with contract `SVDokM` for the matrix each was
+computed from (`ansOK`; validated per recorded call by the harness).  `roundTTsem` is the executable
+sweep the driver runs and the harness compares core-for-core with `Tensor.round_tt`. -/
+
+/-- **exact error**: the squared Frobenius error of the sweep is the sum of the discarded tails of all steps
+    (successive truncation errors are mutually orthogonal) -/
+theorem roundTT_error_eq (thr d2 : K) (ms : List (Mode K)) (as : List (SVDAns K × Nat)) (cur : Mode K) (rest : List (Mode K))
+    (hrev : ms.reverse = cur :: rest) (hlo : chainLO rest) (hrl : cur.rl = topRank rest) (hrr : cur.rr = 1)
+    (hok : ansOK thr d2 (cur :: rest) as) :
+    boxSum (ms.map (·.n)) (fun is => (dense ms is - dense (roundTTsem thr d2 ms as) is) ^ 2) = sweepErr thr d2 (cur :: rest) as :=
+  TN.roundTT_error_eq thr d2 ms as cur rest hrev hlo hrl hrr hok
+
+/-- **the tolerance is honoured**: with `δ² = eps²‖cores[-1]‖²/max(1,N-1)` as `round_tt` computes it, when no step is
+    capped by `rmax` (and none takes the absolute-zero special case): `‖T − round_tt(T)‖² ≤ eps²·‖T‖²` -/
+theorem roundTT_within_eps (thr eps : K) (ms : List (Mode K)) (as : List (SVDAns K × Nat)) (cur : Mode K) (rest : List (Mode K))
+    (hrev : ms.reverse = cur :: rest) (hlo : chainLO rest) (hrl : cur.rl = topRank rest) (hrr : cur.rr = 1)
+    (hok : ansOK thr (budget2 eps cur rest.length) (cur :: rest) as)
+    (hun : uncapped thr (budget2 eps cur rest.length) (cur :: rest) as) :
+    boxSum (ms.map (·.n)) (fun is => (dense ms is - dense (roundTTsem thr (budget2 eps cur rest.length) ms as) is) ^ 2)
+      ≤ eps ^ 2 * boxSum (ms.map (·.n)) (fun is => dense ms is ^ 2) :=
+  TN.roundTT_within_eps thr eps ms as cur rest hrev hlo hrl hrr hok hun
+
+/-- the budget is measured on the last core: `‖T‖² = ‖cores[-1]‖²` in the state entering the sweep -/
+theorem norm_on_last_core (ms : List (Mode K)) (cur : Mode K) (rest : List (Mode K))
+    (hrev : ms.reverse = cur :: rest) (hlo : chainLO rest) (hrl : cur.rl = topRank rest) (hrr : cur.rr = 1) :
+    boxSum (ms.map (·.n)) (fun is => dense ms is ^ 2) = lastNormSq cur :=
+  TN.normsq_dense_eq_last ms cur rest hrev hlo hrl hrr
+
+/-- the ranks produced by the sweep: bond `mu-1` gets exactly the selected rank, which (uncapped) is the least
+    rank whose discarded tail fits the budget — "a tensor that admits exactly lower ranks gets them" -/
+theorem sweep_rank (thr d2 : K) (cur p : Mode K) (rest : List (Mode K)) (A : SVDAns K) (rmax : Nat) (as : List (SVDAns K × Nat)) :
+    (sweepRev thr d2 (cur :: p :: rest) ((A, rmax) :: as)).head?.map (·.rl) = some (stepRank thr d2 A rmax) := by
+  simp [sweepRev, roundStep]
+
+/-- non-vacuity: the 2×2 array `diag(3,1)` as a two-core chain, with its SVD, meets every hypothesis -/
+example : let p : Mode K := { rl := 1, rr := 2, n := 2, G := fun i _ b => if i = b then 1 else 0 }
+    let cur : Mode K := { rl := 2, rr := 1, n := 2, G := fun i a _ => if i = a then (if i = 0 then 3 else 1) else 0 }
+    let A : SVDAns K := { n := 2, U := fun a l => if a = l then 1 else 0, S := fun l => if l = 0 then 3 else 1,
+                          Vh := fun l i _ => if l = i then 1 else 0 }
+    chainLO [p] ∧ cur.rl = topRank [p] ∧ cur.rr = 1 ∧ ansOK (0 : K) 0 [cur, p] [(A, 7)] ∧ uncapped (0 : K) 0 [cur, p] [(A, 7)] := by
+  intro p cur A
+  refine ⟨⟨rfl, ?_, trivial⟩, rfl, rfl, ⟨⟨?_, ?_, ?_⟩, ?_, ?_, trivial⟩, ?_, trivial⟩
+  · intro d hd d' hd'
+    simp only [p] at hd hd' ⊢
+    interval_cases d <;> interval_cases d' <;> simp [Finset.sum_range_succ]
+  · intro a ha i hi b hb
+    simp only [cur] at ha hi hb
+    interval_cases a <;> interval_cases i <;> interval_cases b <;> simp [cur, A, Finset.sum_range_succ]
+  · intro k l hk hl
+    simp only [A] at hk hl
+    interval_cases k <;> interval_cases l <;> simp [cur, A, Finset.sum_range_succ]
+  · intro k l hk hl
+    simp only [A] at hk hl
+    interval_cases k <;> interval_cases l <;> simp [cur, A, Finset.sum_range_succ]
+  · simp [A]
+  · simp [A]
+  · have h := (leastRank_spec A.sq (0 : K) A.sq.length 0).2.1
+    have : A.sq.length = 2 := by simp [SVDAns.sq, A]
+    omega
+
+-- NOT YET PROVED (full statements):
+--  * the same bound with Tucker factors present (needs: applying column-orthonormal factors mode-wise preserves Frobenius
+--    distances — `factor_orthogonalize` establishes the hypothesis), for `algorithm='eig'`, and for `round_tucker`;
+--  * the `rmax`-capped clause "error equals the tails" is `roundTT_error_eq` (proved); a bound in terms of the ORIGINAL
+--    tensor's unfolding singular values needs Eckart–Young, absent from Mathlib;
+--  * the absolute-zero special case (`S[0] < 1e-13`) is excluded by `ansOK`; on the real code it is the recorded
+--    tiny-norm known finding.
 
 end TN.C04
